@@ -340,9 +340,38 @@ func (idx *HNSWIndex) Remove(vector VectorNode) error {
 	// ════════════════════════════════════════════════════════════════════════
 	idx.mu.Lock()
 	idx.deletedNodes.Add(id)
+	if id == idx.entryPoint {
+		// Keep the search entry point on a live vertex. Physical deletions (Flush)
+		// do not reconnect the neighbours of the vertices they drop, so the part of
+		// the graph that is reachable from a soft-deleted entry point may hold no
+		// live vertex at all: every search then came back empty until the next Flush.
+		idx.moveEntryPointToLiveNode()
+	}
 	idx.mu.Unlock()
 
 	return nil
+}
+
+// moveEntryPointToLiveNode re-elects the entry point among the live vertices: the one on
+// the highest layer, the smallest ID among those. It does nothing when no live vertex is
+// left.
+//
+// CONCURRENCY: The caller MUST hold the write lock.
+func (idx *HNSWIndex) moveEntryPointToLiveNode() {
+	var best uint32
+	bestLevel := -1
+	for id, n := range idx.nodes {
+		if idx.deletedNodes.Contains(id) {
+			continue
+		}
+		if n.Level > bestLevel || (n.Level == bestLevel && id < best) {
+			best, bestLevel = id, n.Level
+		}
+	}
+	if bestLevel >= 0 {
+		idx.entryPoint = best
+		idx.maxLevel = bestLevel
+	}
 }
 
 // Flush performs hard delete of soft-deleted nodes.
